@@ -212,9 +212,40 @@ def run(rng, tier, model_ok):
                 return {"why": "casts group left to right: expected %s %s" % (w, ul), "expected": str(w)}
             return None
         items.append((q, oracle))
+    # `to` binds loosest also after an operand that is a fact named by several words: the cast applies to the value found
+    import qcorr
+    import unitlib
+    V = unitlib.vocab()
+    facts = []
+    for c in qcorr.tables()["shipped"]:
+        ws = c["tokens"]
+        if 2 <= len(ws) <= 4 and all(w.isalpha() and w.islower() and w != "to" for w in ws) and c["unit"]:
+            facts.append(" ".join(ws))
+    rng.shuffle(facts)
+    facts = facts[: (25 if tier == "quick" else 200)]
+    krep = vlib.run_impl(["K %s 1" % vlib.hx(f) for f in facts])
+    pairs_rel = []
+    for f, k in zip(facts, krep):
+        if not isinstance(k, list) or not k or "unit" not in k[0] or not k[0]["unit"] or V.has_offset(k[0]["unit"]):
+            continue
+        tgt = unitlib.expand_text(rng, V, k[0]["unit"])
+        if not tgt:
+            continue
+        for a, b in (("%s to %s" % (f, tgt), "(%s) to %s" % (f, tgt)), ("2 * %s to %s" % (f, tgt), "(2 * %s) to %s" % (f, tgt)),
+                     ("%s  to %s" % (f, tgt), "(%s) to %s" % (f, tgt))):
+            items.append((a, None))
+            items.append((b, None))
+            pairs_rel.append((len(items) - 2, len(items) - 1))
     corpus = vlib.load_corpus("C06")
     items = [(q, None) for q in corpus] + items
     replies, failures, mismatches, ncoq = pipeline.run_queries(items, "C06", rng, tier, model_ok, budget_quick=2000)
+    for i, j in pairs_rel:
+        ra, rb = replies[len(corpus) + i], replies[len(corpus) + j]
+        va, vb = pipeline.single_value(ra), pipeline.single_value(rb)
+        if vb is not None and va != vb:
+            failures.append({"input": items[len(corpus) + i][0], "why": "a cast after a fact named by several words must apply to the value found: "
+                             "with parentheses around the operand the answer is %s, without %s" % (vb, va)})
+    shapes["cast_after_fact"] = len(pairs_rel)
     distinct = {q for q, _ in items if sum(q.count(o) for o in OPS) >= 2}
     return {
         "evaluations": len(items), "distinct_nontrivial": len(distinct),
